@@ -262,6 +262,9 @@ def run(ctx):
     # bi-modal conditionals (U-shaped beta moving with the given): tilted parallel bands whose
     # bounding boxes overlap
     cases += H.band_cases(np.random.default_rng(ctx.seed * 17 + 3), ctx.pick(10, 60))
+    # integer-typed grids (int / np.int64 limits, int or mixed cell sizes): the returned coordinates must still
+    # be the centres of the boundary cells
+    cases += H.integer_grid_cases(vc, np.random.default_rng(ctx.seed * 23 + 6), cfgs, ctx.pick(6, 40))
     # single regions with a hole (frame / shell): one region = one coordinate set
     cases += H.hole_cases(np.random.default_rng(ctx.seed * 19 + 4), ctx.pick(8, 48))
     # V
